@@ -9,7 +9,9 @@ one mutex acquisition (or one channel / WaitGroup operation) is one step; a chec
 that happen under two acquisitions are two steps.  The step functions are partial and
 deterministic: `step s a = none` means "`a` is not enabled in `s`".
 
-Source (line numbers of /repo after the C18 repairs, commits 6c6a519, c45d52b, 8f6e149):
+Source (line numbers of /repo AT COMMIT 8eb5ad0, i.e. after the C18 repairs 6c6a519, c45d52b,
+8f6e149, 8eb5ad0; later commits of other properties shift syncer.go; the function names are the
+stable reference and `Extracted/ConcFacts.lean` is regenerated from the current source):
   threadgroup/threadgroup.go   Add 29-45 (done closure 41-44), Stop 83-98
   syncer/syncer.go             addPeer 389-425 (critical section 398-424), acquireInflight 444-458,
                                releaseInflight 461-472, runPeer 474-561 (deferred cleanup 475-487,
